@@ -1,7 +1,6 @@
 package props
 
 import (
-	"strings"
 	"bytes"
 	"context"
 	"errors"
@@ -13,6 +12,7 @@ import (
 	"path/filepath"
 	"runtime"
 	"strconv"
+	"strings"
 	"syscall"
 
 	"go.pennock.tech/tabular"
@@ -67,10 +67,21 @@ type c15DetailErr struct {
 
 func (e c15DetailErr) Error() string { return e.op + ": " + strings.Join(e.details, "; ") }
 
+// c15OptCause has an Unwrap method and, this time, nothing to unwrap (the shape of *net.DNSError-like errors with
+// an optional cause): it is an error all the same.
+type c15OptCause struct {
+	Limit int
+	Cause error
+}
+
+func (e *c15OptCause) Error() string { return fmt.Sprintf("quota of %d bytes exceeded", e.Limit) }
+func (e *c15OptCause) Unwrap() error { return e.Cause }
+
 var c15Errs = []error{
 	errInjected, io.EOF, fmt.Errorf("connection lost: %w", io.EOF), io.ErrUnexpectedEOF, io.ErrShortWrite, io.ErrClosedPipe,
 	os.ErrClosed, context.Canceled, syscall.EPIPE, syscall.EAGAIN, c15AgreeableErr{}, errors.New(""), io.ErrNoProgress,
 	c15ListErr{errInjected, io.EOF}, c15DetailErr{"write", []string{"disk full", "quota"}}, fmt.Errorf("flush: %w", c15ListErr{io.ErrShortWrite}),
+	&c15OptCause{Limit: 4096}, &c15OptCause{Limit: 1, Cause: io.ErrClosedPipe}, fmt.Errorf("outer: %w", &c15OptCause{Limit: 7}),
 }
 
 type scriptWriter struct {
